@@ -39,6 +39,10 @@ CHECKS = {
    technique="exhaustive fault-point enumeration on the real library: reader fails at every byte offset, writer fails at every output byte, deviation-bounded short-write and read-schedule exploration, flush failure",
    text="For every corpus input, source selection and target: a reader failing at EVERY offset k (including in place of EOF) yields Err with the reader's text and only complete fault-free documents before it; a writer failing at EVERY k yields Err with accepted bytes a prefix of the fault-free output; every short-write schedule within the bound yields exactly the fault-free output; flush errors are forwarded.",
    note="Fault model as in the property: once failing, a reader/writer keeps failing; a reader that already answered EOF stays at EOF. Document framing of partial output is decided by the harness's own readers."),
+ "C13": dict(cat="exploration", design="4.13",
+   technique="exhaustive enumeration of argument vectors up to a length bound over a vocabulary x stdin contents x stdout kinds, run through the real binary, against a reference model of the command line plus the library's verdict",
+   text="Every argv up to the length bound over the vocabulary, with translatable/malformed/empty stdin and stdout a pipe, file or pty: exit 2 exactly for invalid command lines (usage on stderr, nothing on stdout), exit 0 exactly when help/version is served or every input translates (stdout equals the help text / the library's bytes), exit 1 otherwise with 'xt error' naming the failing input and stdout a prefix of the library's bytes; MessagePack never reaches a terminal; never a signal.",
+   note="Trusted: the harness's reference model of conventional option parsing (written from doc/xt.1), openpty for the terminal case. Unreadable (mode 000) files are not produced (the sandbox runs as root)."),
 }
 
 NOT_YET = "check not built yet (planned in DESIGN.md section 4); not claimed until registered under checks"
